@@ -87,6 +87,7 @@ inline(LAYERS, "YowLayerEvent.__init__")
 @contract(IQ, "YowIqProtocolLayer.gotPong")
 def gotPong(self: Obj("YowIqProtocolLayer"), pingId: Str):
     requires(not self._pingQueueLock.held)
+    modifies(self._pingQueue)
     ensures(not self._pingQueueLock.held)
     ensures(implies(contains_key(old(self._pingQueue), pingId), len(self._pingQueue) == 0))
     ensures(implies(not contains_key(old(self._pingQueue), pingId), map_eq(self._pingQueue, old(self._pingQueue))))
@@ -95,6 +96,7 @@ def gotPong(self: Obj("YowIqProtocolLayer"), pingId: Str):
 @contract(IQ, "YowIqProtocolLayer.waitPong")
 def waitPong(self: Obj("YowIqProtocolLayer"), id: Str):
     requires(not self._pingQueueLock.held)
+    modifies(self._pingQueue)
     ensures(not self._pingQueueLock.held)
     ensures(contains_key(self._pingQueue, id))
     ensures(len(self._pingQueue) == len(old(self._pingQueue)) + (0 if contains_key(old(self._pingQueue), id) else 1))
